@@ -9,4 +9,7 @@ INVARIANT CmpRefines
 INVARIANT RemRefines
 INVARIANT MulRefines
 INVARIANT RoundRefines
+INVARIANT DivRefines
+INVARIANT QuantizeRefines
+INVARIANT RatioRefines
 CHECK_DEADLOCK FALSE
